@@ -45,6 +45,12 @@ def configs(tier):
         cfgs.append({"name": f"n4-max{ms}-second-call", "n": 4, "max_size": ms, "maxe": 4, "tier": tier, "second": True})
     for ms in (0, 2, 3, 4):
         cfgs.append({"name": f"n5-max{ms}", "n": 5, "max_size": ms, "maxe": 4 if q else 10, "tier": tier})
+    # cliques of 10 and 11 vertices (two-digit sizes in the labels), one fixed ordering of the shuffle and its reverse
+    cfgs.append({"name": "K10-max0", "n": 10, "max_size": 0, "tier": tier, "fixed_graph": "K10"})
+    cfgs.append({"name": "K11-max10", "n": 11, "max_size": 10, "tier": tier, "fixed_graph": "K11"})
+    # triangles bridged by another triangle: fixed part plus symbolic pairs
+    cfgs.append({"name": "n7-bridged-triangles-max0", "n": 7, "max_size": 0, "tier": tier,
+                 "fixed_edges": [(0, 1), (0, 2), (1, 2), (3, 4), (3, 5), (4, 5), (2, 3)], "free_edges": [(2, 6), (3, 6), (1, 6), (4, 6)]})
     if not q:
         for ms in (0, 3):
             cfgs.append({"name": f"n6-e7-max{ms}", "n": 6, "max_size": ms, "maxe": 7, "tier": tier})
@@ -77,6 +83,17 @@ def make_policy(limit):
     return policy
 
 
+def big_list_orders(ctx, orig, rec):
+    """hundreds of cliques (K10, K11): the shuffle is explored as the identity and the reversed order only"""
+    if len(orig) <= 300:
+        return None
+    rec["reduction"] = "identity/reverse"
+    ctx.note("shuffle explored as identity and reversal only (very large clique list)")
+    rev = ctx.fork_bool(ctx.bool(ctx.uniq("revall")))
+    n = len(orig)
+    return list(range(n - 1, -1, -1)) if rev else list(range(n))
+
+
 def parse(label):
     parts = label.split("-")
     return int(parts[0]), ast.literal_eval(parts[1]), int(parts[-1])
@@ -87,13 +104,18 @@ def path(ctx, cfg):
 
     n, ms = cfg["n"], cfg["max_size"]
     pairs = list(itertools.combinations(range(n), 2))
-    bits = [ctx.bool(f"adj{a}_{b}") for a, b in pairs]
-    cnt = 0
-    for b in bits:
-        cnt = cnt + ite(b, 1, 0)
-    if pairs:
-        ctx.assume(cnt <= cfg["maxe"])
-    edges = [p for p, b in zip(pairs, bits) if ctx.fork_bool(b)]
+    if cfg.get("fixed_graph"):
+        edges = list(pairs)
+    elif cfg.get("fixed_edges"):
+        edges = sorted([tuple(e) for e in cfg["fixed_edges"]] + [tuple(p) for p in cfg["free_edges"] if ctx.fork_bool(ctx.bool(f"adj{p[0]}_{p[1]}"))])
+    else:
+        bits = [ctx.bool(f"adj{a}_{b}") for a, b in pairs]
+        cnt = 0
+        for b in bits:
+            cnt = cnt + ite(b, 1, 0)
+        if pairs:
+            ctx.assume(cnt <= cfg["maxe"])
+        edges = [p for p, b in zip(pairs, bits) if ctx.fork_bool(b)]
     G = nx.Graph()
     order = cfg.get("order", "asc")
     if order == "asc":
@@ -106,7 +128,8 @@ def path(ctx, cfg):
         G.add_nodes_from([2, 0, 3, 1][:n] if n == 4 else range(n))
         G.add_edges_from((b, a) if (a + b) % 2 else (a, b) for a, b in edges[::2] + edges[1::2])
     ctx.shuffle_policy = make_policy(FULL[cfg["tier"]])
-    desc = f"n={n} edges={edges} insertion={order} max_size={ms}"
+    ctx.shuffle_concrete = big_list_orders
+    desc = f"n={n} edges={edges if len(edges) < 20 else str(len(edges)) + ' edges'} insertion={order} max_size={ms}"
     if cfg.get("second"):
         # first cover, then move one edge in place (vertex and edge counts unchanged), then cover the same object again
         def identity(c, orig, ps, rec):  # the order of the first cover is irrelevant for the second one: keep it fixed
@@ -131,7 +154,7 @@ def path(ctx, cfg):
     for rec in ctx.rng_log:
         if rec["fn"] == "shuffle":
             order = [ctx.fork_int(p) for p in rec["perm"]]
-    desc += f" shuffle={order}"
+    desc += f" shuffle={order if order is None or len(order) < 40 else 'identity' if order[0] == 0 else 'reversed'}"
     same = sorted(out.nodes()) == list(range(n)) and sorted(map(sorted, out.edges())) == sorted(map(list, edges))
     ctx.require(same, "graph-unchanged", f"{desc}: returned graph has nodes {sorted(out.nodes())} edges {sorted(map(sorted, out.edges()))}", twin=(not same) if edges else None)
     labels = {}
